@@ -299,8 +299,8 @@ theorem map_order_irrelevant (hg : Good env t) (hp : t.Perm t') :
 /-- **render_parse_roundtrip**. For a good table `t` (every reachable table is one) whose rendering is readable
 (`TextOK`: what the command grammar can carry at all — no white space inside service/source/URL, no quote or
 comma inside a tag, no lone empty tag, option keys without '=', lines shorter than 64 KiB) and rebuildable
-(`RebuildOK`, the hypotheses the proof forces:
-  * `pos`  — every target has a positive traffic share (`String()` omits the others),
+(`RebuildOK`, the hypotheses the proof forces — "every target has a positive traffic share" is no longer
+among them since `String()` writes every target:
   * `keys` — no route holds two targets with the same service, URL, tags and 4-decimal weight
              (the property's "two targets that differ only in weight" — and, beyond it, targets that differ only
              in options, which `addTarget`'s de-duplication ignores),
@@ -410,10 +410,13 @@ def countsOf (x : Option (List Target × List Target)) : Option (Nat × Nat) := 
 def addW (svc dst : String) (w : Rat := 0) (tags : List Str := []) (opts : List (Str × Str) := []) : RouteDef :=
   { cmd := .add, service := svc.toList, src := "/p".toList, dst := dst.toList, weight := w, tags, opts }
 
-/-- `RebuildOK.pos` is necessary: with a fixed share of 100 % next to a dynamic target, the dynamic target has
-effective weight 0, is not written by `String()`, and is gone after the round trip (2 targets → 1) -/
-theorem round_trip_needs_positive_share :
-    countsOf (roundTrip [addW "s" "http://a:1/" 1, addW "s" "http://b:1/"] [] "/p".toList) = some (2, 1) := by
+/-- a target without traffic share (a dynamic target next to a fixed share of 100 %) is written by `String()`
+and comes back (2 targets → 2): before the repair of `Route.config` it was omitted and lost (2 → 1), and the
+round-trip theorem needed the hypothesis "every target has a positive share" -/
+theorem round_trip_keeps_zero_share_targets :
+    countsOf (roundTrip [addW "s" "http://a:1/" 1, addW "s" "http://b:1/"] [] "/p".toList) = some (2, 2) ∧
+    ((roundTrip [addW "s" "http://a:1/" 1, addW "s" "http://b:1/"] [] "/p".toList).map
+      (fun ab => ab.1.map (·.weight))) = some [1, 0] := by
   decide +kernel
 
 /-- `RebuildOK.keys` is necessary beyond "differ only in weight": two targets that differ only in their
